@@ -631,6 +631,11 @@ func extractColumnsFromExpr(ident string, expr sqlparser.Expr) (bool, string, st
 			colName := strings.Split(e.Name.String(), ".")
 			if !e.Qualifier.IsEmpty() {
 				colName = append([]string{e.Qualifier.Name.String()}, colName...)
+				// alias.object.key is parsed as qualifier alias.object and
+				// name key: the alias is the qualifier's own qualifier
+				if outer := e.Qualifier.Qualifier.String(); len(outer) > 0 {
+					colName = append([]string{outer}, colName...)
+				}
 			}
 
 			return ident == colName[0], colName[0], strings.Join(colName, "."), nil
